@@ -123,17 +123,31 @@ fn random(args: &Args, acc: &mut Acc, seed: u64, verbose: bool) {
     let kind = *rng.pick(&kinds(args.only.as_deref()));
     let (n, m) = *rng.pick(&chan::cfgs_for(kind, false));
     let origin = match rng.below(3) { 0 => None, 1 => Some(0u32.wrapping_sub(rng.below(3 * m as u64 + 2) as u32)), _ => Some(rng.next() as u32) };
-    let mut h = Hist::new(kind, n, m, origin);
     let len = 5 + rng.below(if args.thorough() { 2000 } else { 400 }) as usize;
-    let mut script = Vec::new();
-    for _ in 0..len {
-        let op = match rng.below(100) { 0..=17 => Op::Create, 18..=49 => Op::Send, 50..=69 => Op::Recv(rng.below(m as u64) as u8), 70..=76 => Op::RecvAll(rng.below(m as u64) as u8), 77..=94 => Op::Drop(rng.below(m as u64) as u8), 95..=96 => Op::CancelOnly, _ => Op::CancelAll };
-        if !h.legal(op) { continue }
-        script.push(op); h.step(op);
-        if !h.problems.is_empty() { break }
-    }
-    let (steps, recycled) = (h.steps, h.recycled);
-    let problems = h.finish();
+    let mut rng2 = Rng::new(rng.next());
+    let mut body = move || {
+        let mut h = Hist::new(kind, n, m, origin);
+        let mut script = Vec::new();
+        for _ in 0..len {
+            let op = match rng2.below(100) { 0..=17 => Op::Create, 18..=49 => Op::Send, 50..=69 => Op::Recv(rng2.below(m as u64) as u8), 70..=76 => Op::RecvAll(rng2.below(m as u64) as u8), 77..=94 => Op::Drop(rng2.below(m as u64) as u8), 95..=96 => Op::CancelOnly, _ => Op::CancelAll };
+            if !h.legal(op) { continue }
+            script.push(op); h.step(op);
+            if !h.problems.is_empty() { break }
+        }
+        let (steps, recycled) = (h.steps, h.recycled);
+        (script, steps, recycled, h.finish())
+    };
+    // The Arc-based Multi kinds WAIT inside `send` when a listener's queue is full. The histories never fill a live listener's queue, but should events be
+    // routed to a queue nobody owns such a send never returns: those kinds run on a thread of their own under a wall-clock watchdog whose firing is
+    // inconclusive (the thread is abandoned), so that the other kinds -- where the same defect shows as a wrong answer -- still get their turn.
+    let (script, steps, recycled, problems) = if kind.never_rejects() {
+        let (tx, rx) = std::sync::mpsc::channel();
+        std::thread::Builder::new().stack_size(1 << 20).spawn(move || { let _ = tx.send(body()); }).expect("spawn");
+        match rx.recv_timeout(std::time::Duration::from_secs(10)) {
+            Ok(r) => r,
+            Err(_) => { acc.evaluations += 1; acc.inconclusive += 1; acc.count("inconclusive_watchdog(a send on an Arc kind never returned)", 1); if acc.notes.len() < 6 { acc.notes.push(format!("watchdog: a history on {} (N={n}, M={m}) did not finish within 10 s: a send waits for room in a queue although no live listener's queue is full", kind.name())) } return }
+        }
+    } else { body() };
     acc.evaluations += 1;
     acc.count(&format!("histories[{}]", kind.name()), 1); acc.count("history_steps", steps); acc.count("stream_ids_recycled", recycled);
     if origin.map(|o| o > u32::MAX - 64).unwrap_or(false) { acc.count("histories_with_the_id_fifo_crossing_the_32bit_wrap", 1) }
